@@ -249,3 +249,40 @@ Proof. exact close_before_install. Qed.
 Example C16_example_open_established_reachable :
   open_established (run ops_established (cfg0 false false)).
 Proof. exact open_established_reachable. Qed.
+
+(* --- the peer's close_notify while the reply cannot be written (transport write fault) --- *)
+(* For every history after which the read loop holds the peer's close_notify while the transport
+   refuses the write of the close_notify reply (Env ERecvCNF: ECONNREFUSED-like error at the alert
+   emission), and every continuation in which the read loop - enabled all along - takes three steps,
+   whatever else is interleaved: conn.closed is signalled, every pending and later Read is woken and
+   (no expired deadline) gets io.EOF, Write gets a closed-class error, and the internal steps alone
+   lead to a configuration without any goroutine of the connection. *)
+Theorem C16_peer_close_survives_reply_write_failure :
+  forall (d v : bool) (ops1 ops2 : list op),
+    let g1 := run ops1 (cfg0 d v) in
+    rd g1 = RReplyF ->
+    op_enabled StepReader g1 = true /\
+    (3 <= reader_steps ops2 ->
+     let g2 := run ops2 g1 in
+     closed (cn g2) = true /\
+     In KEof (read_ready (cn g2)) /\
+     (rd_dl (cn g2) = false -> forall k, In k (read_ready (cn g2)) -> k = KEof) /\
+     In KClosed (write_ready (cn g2)) /\
+     (wr_dl (cn g2) = false -> forall k, In k (write_ready (cn g2)) -> close_class k = true) /\
+     exists ops3, Forall (fun o => internal o = true) ops3 /\ quiet (run ops3 g2) = true).
+Proof. exact peer_close_survives_reply_write_failure. Qed.
+Print Assumptions C16_peer_close_survives_reply_write_failure.
+
+(* The variant in which the write error of the reply replaces the peer-closed classification
+   (processIncomingPacket: "if alertErr != nil { err = alertErr }", model run_sw) is refuted: the
+   connection stays open, nothing is enabled, a Read blocks for ever (seeded change C16g; harness
+   leg wfault, placement <variant>/reply/<side>/1/0/1). *)
+Theorem C16_peer_close_survives_reply_write_failure_refuted :
+  exists ops1 ops2,
+    rd (run_sw ops1 (cfg0 false false)) = RReplyF /\ 3 <= reader_steps ops2 /\
+    let g2 := run_sw ops2 (run_sw ops1 (cfg0 false false)) in
+    closed (cn g2) = false /\ read_ready (cn g2) = [] /\ est (cn g2) = true /\
+    rd g2 = RRead /\ us g2 = [] /\ op_enabled StepReader g2 = false /\
+    (forall b, op_enabled (StepHs b) g2 = false).
+Proof. exact peer_close_survives_reply_write_failure_refuted. Qed.
+Print Assumptions C16_peer_close_survives_reply_write_failure_refuted.
